@@ -70,6 +70,7 @@ structure StepOk (c : Call) (s : DrvState) : Prop where
     (exec (runCall c) s).1 = .error e ∧ (exec (runCall c) s).2.abs = s.abs
   frame : ∀ j, j ≠ s.d.rid → (exec (runCall c) s).2.cfgAt j = s.cfgAt j
   rid : (exec (runCall c) s).2.d.rid = s.d.rid
+  len : (exec (runCall c) s).2.w.radios.length = s.w.radios.length
 
 theorem abs_eq {s : DrvState} {c : Radio} {p : Option Bytes} (h1 : s.cfg = c) (h2 : s.d.pipe0ReadAddr = p) :
     s.abs = { r := c, user0 := p } := by
@@ -84,7 +85,7 @@ theorem stepOk (c : Call) (s : DrvState) (h : Inv s) (hd : c.dom s.cfg.plus) : S
     rw [hdoc] at hp
     simp only at hp
     have hok := docStep_ok c s.abs a' ret h.ok h.user0 hd hdoc
-    refine ⟨hp.inv hok.1 hok.2, ?_, ?_, hp.frame, hp.rid⟩
+    refine ⟨hp.inv hok.1 hok.2, ?_, ?_, hp.frame, hp.rid, hp.len⟩
     · intro a'' ret' he
       rw [hdoc] at he
       cases he
@@ -93,7 +94,7 @@ theorem stepOk (c : Call) (s : DrvState) (h : Inv s) (hd : c.dom s.cfg.plus) : S
   | error e =>
     rw [hdoc] at hp
     simp only at hp
-    refine ⟨hp.inv h.ok h.user0, ?_, ?_, hp.frame, hp.rid⟩
+    refine ⟨hp.inv h.ok h.user0, ?_, ?_, hp.frame, hp.rid, hp.len⟩
     · intro a'' ret' he; rw [hdoc] at he; cases he
     · intro e' he
       rw [hdoc] at he
@@ -155,5 +156,43 @@ theorem history (cs : List Call) : ∀ (s : DrvState), Inv s → (∀ c ∈ cs, 
       refine ⟨ih'.1, by rw [hres, ih'.2.1], ih'.2.2.1, ?_, ih'.2.2.2.2.trans hst.rid⟩
       intro j hj
       rw [ih'.2.2.2.1 j (by rw [hst.rid]; exact hj), hst.frame j hj]
+
+/-- a history keeps the number of radios of the world -/
+theorem runCalls_length (cs : List Call) : ∀ (s : DrvState), Inv s → (∀ c ∈ cs, c.dom s.cfg.plus) →
+    (runCalls cs s).2.w.radios.length = s.w.radios.length := by
+  induction cs with
+  | nil => intro s _ _; rfl
+  | cons c cs ih =>
+    intro s h hd
+    have hst := stepOk c s h (hd c (by simp))
+    have hplus : (exec (runCall c) s).2.cfg.plus = s.cfg.plus := by
+      cases hdoc : docStep c s.abs with
+      | ok v =>
+        obtain ⟨a', ret⟩ := v
+        have := docStep_plus hdoc
+        rw [← (hst.ok a' ret hdoc).2] at this
+        exact this
+      | error e =>
+        have : (exec (runCall c) s).2.abs.r.plus = s.abs.r.plus := by rw [(hst.err e hdoc).2]
+        exact this
+    have ih' := ih _ hst.inv (fun c' hc' => by rw [hplus]; exact hd c' (by simp [hc']))
+    show (runCalls cs (exec (runCall c) s).2).2.w.radios.length = _
+    rw [ih', hst.len]
+
+/-- the documented run never changes the chip variant -/
+theorem docRun_plus (cs : List Call) : ∀ a : CfgSt, (docRun cs a).2.r.plus = a.r.plus := by
+  induction cs with
+  | nil => intro a; rfl
+  | cons c cs ih =>
+    intro a
+    unfold docRun
+    cases hdoc : docStep c a with
+    | ok v =>
+      obtain ⟨a', ret⟩ := v
+      simp only
+      rw [ih a', docStep_plus hdoc]
+    | error e =>
+      simp only
+      exact ih a
 
 end Nrf
